@@ -666,6 +666,13 @@ struct Digit {
         SizeT64 exp = DigitUtils::RealNumberInfo<double, 8U>::Bias; // double only
         exp += bit;
         exp += shifted;
+
+        if (exp >= SizeT64{0x7FF}) {
+            // Beyond the largest finite double: infinity.
+            number = Number_T{0x7FF0000000000000ULL};
+            return;
+        }
+
         exp <<= 52U;
         number &= 0xFFFFFFFFFFFFFULL;
         number |= exp;
